@@ -14,6 +14,8 @@ use crate::checks::c06::{case_strategy, TagCase};
 use crate::util;
 
 const BIN: &str = "/verif/target/workers/bin";
+/// the same workers compiled with debug assertions (C18 feature-configurations)
+const BIN_CHECKED: &str = "/verif/target/workers-checked/bin";
 
 struct Worker {
     name: String,
@@ -32,18 +34,27 @@ impl Drop for Worker {
 
 thread_local! {
     static WORKERS: RefCell<Vec<Worker>> = const { RefCell::new(vec![]) };
+    static WORKERS_CHECKED: RefCell<Vec<Worker>> = const { RefCell::new(vec![]) };
 }
 
 fn worker_names() -> Vec<String> {
-    std::fs::read_to_string(format!("{BIN}/list.txt"))
+    worker_names_in(BIN)
+}
+
+fn worker_names_in(dir: &str) -> Vec<String> {
+    std::fs::read_to_string(format!("{dir}/list.txt"))
         .map(|s| s.lines().map(|l| l.to_string()).filter(|l| !l.is_empty()).collect())
         .unwrap_or_default()
 }
 
 fn spawn_workers() -> Result<Vec<Worker>, String> {
+    spawn_workers_in(BIN)
+}
+
+fn spawn_workers_in(dir: &str) -> Result<Vec<Worker>, String> {
     let mut v = vec![];
-    for name in worker_names() {
-        let mut child = Command::new(format!("{BIN}/{name}"))
+    for name in worker_names_in(dir) {
+        let mut child = Command::new(format!("{dir}/{name}"))
             .stdin(Stdio::piped())
             .stdout(Stdio::piped())
             .stderr(Stdio::null())
@@ -163,18 +174,73 @@ fn ask(w: &mut Worker, req: &[u8], n_texts: usize) -> Result<Vec<Result<TextResu
     parse(&resp, n_texts).map_err(|e| format!("worker {}: {e}", w.name))
 }
 
-pub fn test_case(case: &TagCase) -> TestResult {
-    let spec = &case.spec;
-    let model = spec.to_bytes();
+fn request(case: &TagCase) -> Vec<u8> {
+    request_with(case, true)
+}
+
+fn request_with(case: &TagCase, predict_tags: bool) -> Vec<u8> {
+    let model = case.spec.to_bytes();
     let mut req = vec![];
     req.extend_from_slice(&(model.len() as u32).to_le_bytes());
     req.extend_from_slice(&model);
-    req.push(1u8);
+    req.push(predict_tags as u8);
     req.extend_from_slice(&(case.texts.len() as u32).to_le_bytes());
     for t in &case.texts {
         req.extend_from_slice(&(t.len() as u32).to_le_bytes());
         req.extend_from_slice(t.as_bytes());
     }
+    req
+}
+
+pub fn checked_worker_names() -> Vec<String> {
+    worker_names_in(BIN_CHECKED)
+}
+
+/// C18 under every feature configuration: the case goes to every worker compiled with debug
+/// assertions (vaporetto's own debug_assert!s on its unchecked operations plus the standard
+/// library's checks of unsafe preconditions). Each worker predicts, tags, serialises and reloads
+/// the predictor, predicts and tags again, writes both formats and applies the post-filters.
+/// Only a crash counts here: a worker that dies (aborting precondition check, SIGSEGV) or
+/// reports a panic. Whether the results are right is C13's question.
+pub fn test_case_checked(case: &TagCase) -> TestResult {
+    let req = request(case);
+    let multibyte = case.texts.iter().any(|t| t.chars().any(|c| c.len_utf8() > 1));
+    WORKERS_CHECKED.with(|ws| -> Result<(), vcommon::engine::Fail> {
+        let mut ws = ws.borrow_mut();
+        if ws.is_empty() {
+            *ws = spawn_workers_in(BIN_CHECKED)?;
+            if ws.is_empty() {
+                return Err("no checked workers built (tools/build_workers.sh quick checked)".into());
+            }
+        }
+        let mut failed: Option<String> = None;
+        for w in ws.iter_mut() {
+            if let Err(e) = ask(w, &req, 2 * case.texts.len()) {
+                failed = Some(format!("build {} with debug assertions: {e}", w.name));
+                break;
+            }
+        }
+        if let Some(f) = failed {
+            ws.clear();
+            return Err(f.into());
+        }
+        Ok(())
+    })?;
+    Ok(Info::new(multibyte && !case.spec.tag_models.is_empty())
+        .class(multibyte, "multi-byte-text")
+        .class(!case.spec.tag_models.is_empty(), "tag-models"))
+}
+
+pub fn test_case(case: &TagCase) -> TestResult {
+    // every fourth case asks for boundaries only: the builds then use their plain scorers even
+    // though the model has tag models
+    let with_tags = case.spec.bias.rem_euclid(4) != 0;
+    test_case_with(case, with_tags)
+}
+
+pub fn test_case_with(case: &TagCase, with_tags: bool) -> TestResult {
+    let spec = &case.spec;
+    let req = request_with(case, with_tags);
     // ground truth for the tie: RefScore / RefTags on the predicted boundaries
     let mut truth = vec![];
     let mut contributions = 0;
@@ -233,7 +299,12 @@ pub fn test_case(case: &TagCase) -> TestResult {
                     ));
                     break;
                 }
-                if w.has_tags {
+                if !with_tags {
+                    if got.tags.is_some() {
+                        failed = Some(format!("build {} returned tags although none were asked for", w.name));
+                        break;
+                    }
+                } else if w.has_tags {
                     if got.tags != want.tags {
                         failed = Some(format!(
                             "build {}{variant}: tags of {:?} differ from the reference: {:?} vs {:?}",
@@ -264,6 +335,7 @@ pub fn test_case(case: &TagCase) -> TestResult {
             "<=8-weights(fixed vs variable builds differ)",
         )
         .class(multibyte, "multi-byte-text(charwise vs bytewise builds differ)")
+        .class(!with_tags, "boundaries-only-request")
         .class(!spec.tag_models.is_empty(), "tag-models"))
 }
 
@@ -284,6 +356,29 @@ tag-prediction, must equal RefScore/RefTags \
 contributes to an existing boundary.",
         names.len(),
         names.join(" | ")
+    );
+    rep.run_enum(
+        "large-models",
+        "the deterministic large models of C14 (5,000 tag models; 70,000 character n-grams = more \
+than 65,535 patterns) through every build, once with and once without tag prediction requested; \
+same oracle",
+        false,
+        [
+            crate::checks::c14::LargeCase { n_tag_models: 5000, n_char_ngrams: 300, n_words: 40, n_long_words: 0, long_text: 0 },
+            crate::checks::c14::LargeCase { n_tag_models: 200, n_char_ngrams: 70000, n_words: 250, n_long_words: 0, long_text: 0 },
+            crate::checks::c14::LargeCase { n_tag_models: 0, n_char_ngrams: 66000, n_words: 100, n_long_words: 0, long_text: 0 },
+        ]
+        .into_iter()
+        .flat_map(|c| [(c.clone(), true), (c, false)]),
+        |(c, with_tags): &(crate::checks::c14::LargeCase, bool)| {
+            let m = crate::checks::c14::large_model(c);
+            let texts: Vec<String> = m.texts.into_iter().take(6).collect();
+            let case = TagCase { spec: m.spec, edits: vec![vec![]; texts.len()], texts, pre: None };
+            test_case_with(&case, *with_tags).map(|mut i| {
+                i.nontrivial = true;
+                i
+            })
+        },
     );
     rep.run_prop("feature-builds", &rule, n, || case_strategy(ModelCfg::TAGGED), test_case);
     rep.extra("builds", serde_json::json!(names));
